@@ -87,55 +87,74 @@ Definition model_proc (c : pcase) : event (option jv) * outcome :=
   | NFilter p => Formatters.filter (pred_fn p) (ev0 c)
   end.
 
+(* ---- the checks of one Process case, one named function per observable (RunFormatsSound.v gives each its meaning) ---- *)
+Definition writes (c : pcase) : bool := match c_node c with NFilter _ => false | _ => true end.
+Definition is_err (oc : outcome) : bool := match oc with OErr => true | _ => false end.
+Definition out_code (oc : outcome) : N := match oc with OFwd => 1 | _ => 0 end.
+
+Definition chk_model (c : pcase) : list kind :=
+  match c_payload c with Some v => if wfb v then [] else [KModel] | None => [] end.
+Definition chk_err (oc : outcome) (o : fobs) : list kind := if Bool.eqb (is_err oc) (o_err o) then [] else [KErr].
+Definition chk_out (oc : outcome) (o : fobs) : list kind := if o_out o =? out_code oc then [] else [KFwd].
+Definition chk_bytes (t : table) (o : fobs) : list kind :=
+  if obeqb (tget fmt_json t) (tget fmt_json (o_table o)) then [] else [KBytes].
+Definition chk_other (t : table) (o : fobs) : list kind :=
+  if table_eqb (tsort (others t)) (others (o_table o)) then [] else [KOther].
+Definition chk_frame (o : fobs) : list kind := if o_frame o then [] else [KFrame].
+(* observation-only: whenever the node reports success for an encodable event, what it stored must be the line the property
+   describes *)
+Definition chk_line (c : pcase) : list kind :=
+  let o := c_obs c in
+  if writes c && negb (o_err o) then
+    match c_time c, c_payload c, tget fmt_json (o_table o) with
+    | Some t, Some v, Some b =>
+        (if single_line b then [] else [KLine]) ++
+        (if members_ok b (c_type c) v then [] else [KParse]) ++
+        (if o_decode o =? 1 then [] else [KDecode])
+    | Some _, Some _, None => [KParse]          (* success reported but nothing is stored under json *)
+    | _, _, _ => []
+    end
+  else [].
+(* observation-only: an error other than the predicate's leaves the format table exactly as it was; Filter never writes *)
+Definition chk_errstored (c : pcase) : list kind :=
+  let o := c_obs c in
+  if (o_err o && negb (o_pred_err o)) || negb (writes c) then
+    (if table_eqb (c_pre c) (o_table o) then [] else [KErrStored])
+  else [].
+(* observation-only: the stored value is still the same when re-read after later Process calls on other events; if it is
+   not, the property's oracle is run again on what is there now *)
+Definition final_of (o : fobs) : option bytes := match o_final o with None => tget fmt_json (o_table o) | Some x => x end.
+Definition chk_final (c : pcase) : list kind :=
+  let o := c_obs c in
+  if obeqb (tget fmt_json (o_table o)) (final_of o) then []
+  else KStoredMutated ::
+       (if writes c && negb (o_err o) then
+          match c_time c, c_payload c, final_of o with
+          | Some t, Some v, Some b =>
+              (if single_line b then [] else [KLine]) ++ (if members_ok b (c_type c) v then [] else [KParse])
+          | _, _, _ => []
+          end
+        else []).
+
 Definition run_proc (c : pcase) : list kind :=
   let '(e', oc) := model_proc c in
   let o := c_obs c in
-  let writes := match c_node c with NFilter _ => false | _ => true end in
-  (match c_payload c with Some v => if wfb v then [] else [KModel] | None => [] end) ++
-  (if Bool.eqb (match oc with OErr => true | _ => false end) (o_err o) then [] else [KErr]) ++
-  (if o_out o =? (match oc with OFwd => 1 | _ => 0 end) then [] else [KFwd]) ++
-  (if obeqb (tget fmt_json (ev_fmt e')) (tget fmt_json (o_table o)) then [] else [KBytes]) ++
-  (if table_eqb (tsort (others (ev_fmt e'))) (others (o_table o)) then [] else [KOther]) ++
-  (if o_frame o then [] else [KFrame]) ++
-  (* observation-only: whenever the node reports success for an encodable event, what it stored must be the line the
-     property describes *)
-  (if writes && negb (o_err o) then
-     match c_time c, c_payload c, tget fmt_json (o_table o) with
-     | Some t, Some v, Some b =>
-         (if single_line b then [] else [KLine]) ++
-         (if members_ok b (c_type c) v then [] else [KParse]) ++
-         (if o_decode o =? 1 then [] else [KDecode])
-     | Some _, Some _, None => [KParse]          (* success reported but nothing is stored under json *)
-     | _, _, _ => []
-     end
-   else []) ++
-  (* observation-only: an error other than the predicate's leaves the format table exactly as it was; Filter never writes *)
-  (if (o_err o && negb (o_pred_err o)) || negb writes then
-     (if table_eqb (c_pre c) (o_table o) then [] else [KErrStored])
-   else []) ++
-  (* observation-only: the stored value is still the same when re-read after later Process calls on other events; if it is
-     not, the property's oracle is run again on what is there now *)
-  (let final := match o_final o with None => tget fmt_json (o_table o) | Some x => x end in
-   if obeqb (tget fmt_json (o_table o)) final then []
-   else KStoredMutated ::
-        (if writes && negb (o_err o) then
-           match c_time c, c_payload c, final with
-           | Some t, Some v, Some b =>
-               (if single_line b then [] else [KLine]) ++ (if members_ok b (c_type c) v then [] else [KParse])
-           | _, _, _ => []
-           end
-         else [])).
+  chk_model c ++ chk_err oc o ++ chk_out oc o ++ chk_bytes (ev_fmt e') o ++ chk_other (ev_fmt e') o ++ chk_frame o ++
+  chk_line c ++ chk_errstored c ++ chk_final c.
 
+(* one step of a forced FormattedAs / Format schedule: the observed result must be the model's *)
+Definition chk_step (m r : option (option bytes)) : bool :=
+  match m, r with
+  | Some x, Some y => obeqb x y
+  | None, None => true
+  | _, _ => false
+  end.
 Fixpoint run_table (t : table) (i : N) (ops : list (N * top * option (option bytes))) (final : table) : list (N * N * kind) :=
   match ops with
   | [] => if table_eqb (tsort t) final then [] else [(i, 4, KLww)]
   | (g, o, r) :: rest =>
       let '(t', m) := tstep t o in
-      (match m, r with
-       | Some x, Some y => if obeqb x y then [] else [(i, 4, KLww)]
-       | None, None => []
-       | _, _ => [(i, 4, KLww)]
-       end) ++ run_table t' (N.succ i) rest final
+      (if chk_step m r then [] else [(i, 4, KLww)]) ++ run_table t' (N.succ i) rest final
   end.
 
 Definition run_case (c : fcase) : list (N * (N * N * kind)) :=
